@@ -21,7 +21,7 @@ None == [i |-> 0, done |-> FALSE]
 TInit == Init /\ l = 1 /\ sk = FALSE /\ pend = [th \in Threads |-> None]
 Step == l' = l + 1 /\ sk' = FALSE
 
-Clear == /\ reserved' = [u \in Names |-> 0] /\ resv' = <<>> /\ used' = {}
+Clear == /\ where' = Where0 /\ reserved' = [u \in Names |-> 0] /\ resv' = <<>> /\ used' = {}
          /\ last' = [op |-> "init"] /\ pend' = [th \in Threads |-> None]
 TReset == Is("reset") /\ Clear /\ Step
 TSkip  == l <= Len(Trace) /\ Cur.ev # "reset" /\ Clear /\ l' = Cur.nr /\ sk' = TRUE
@@ -34,6 +34,8 @@ Do(e) ==
      \/ e.op = "particular" /\ Particular(e.u, e.unc, e.exp, e.err, e.rid, e.utxos, e.change)
      \/ e.op = "cancel" /\ Cancel(e.rid)
      \/ e.op = "expire" /\ Expire(e.t)
+     \/ e.op \in {"addunc", "rmunc", "confirm"} /\ Move(e.u, e.op)
+  /\ (e.op \notin {"addunc", "rmunc", "confirm"} => UNCHANGED where)
   /\ UNCHANGED last
 
 (* the logged tables equal the specification's *)
@@ -56,7 +58,7 @@ TSnap  == /\ Is("snap") /\ \A th \in Threads : pend[th] = None
 
 TNext == TReset \/ TSkip \/ TCall \/ TBegin \/ TEnd \/ TSnap \/ \E th \in Threads : TLin(th)
 TSpec == TInit /\ [][TNext]_tvars
-TView == <<reserved, resv, used, l, sk, pend>>
+TView == <<where, reserved, resv, used, l, sk, pend>>
 
 NTr == Trace[Len(Trace)].tr
 ASSUME TLCSet(2, [i \in 1..NTr |-> 0])
